@@ -68,6 +68,35 @@ def expected_msg(e):
                (":message-type", "error")]) + "#"
 
 
+def py_decode(data):
+    """an event-stream decoder written from the AWS documentation (prelude: total length, header length, CRC-32 of those eight bytes; headers:
+    one-byte name length, name, type 7, two-byte value length, value; payload; CRC-32 of everything before it), in the rendering of expected_msg;
+    used for streams too large for the quick tier to evaluate the Gallina decoder on"""
+    import struct, zlib
+    out, pos = [], 0
+    while pos < len(data):
+        if len(data) - pos < 16:
+            return "undecodable"
+        total, hlen, pcrc = struct.unpack(">III", data[pos:pos + 12])
+        if zlib.crc32(data[pos:pos + 8]) != pcrc or total < 16 + hlen or pos + total > len(data):
+            return "undecodable"
+        (mcrc,) = struct.unpack(">I", data[pos + total - 4:pos + total])
+        if zlib.crc32(data[pos:pos + total - 4]) != mcrc:
+            return "undecodable"
+        hs, hp, hend = [], pos + 12, pos + 12 + hlen
+        while hp < hend:
+            nl = data[hp]; name = data[hp + 1:hp + 1 + nl]; hp += 1 + nl
+            if hp + 3 > hend or data[hp] != 7:
+                return "undecodable"
+            (vl,) = struct.unpack(">H", data[hp + 1:hp + 3]); val = data[hp + 3:hp + 3 + vl]; hp += 3 + vl
+            if hp > hend or nl == 0:
+                return "undecodable"
+            hs.append(name.hex() + "=" + val.hex())
+        out.append(",".join(hs) + "#" + data[hend:pos + total - 4].hex())
+        pos += total
+    return ";".join(out)
+
+
 def run(ctx):
     rng = ctx.rng
     known = vlib.known_findings("C15")
@@ -89,8 +118,9 @@ def run(ctx):
     # long streams (counters, budgets and buffers of the framing side): every emitted item is framed, in order, whatever its index
     for m in (31, 32, 33, 64, 65, 66, 100, 257) + (() if ctx.quick else (1000, 4097)):
         seqs.append([dict(k="records", p="%04x" % j) if j % 7 else gen_event(rng, 64) for j in range(m)])
-    if not ctx.quick:
-        seqs.append([dict(k="records", p=rng.bytes(1 << 18).hex()), dict(k="end")])
+    # payloads around the sizes where length fields and limits of the encoding lie (64 KiB, 128 KiB): framed like any other
+    for sz in ((65535, 65536, 131072, 131073) if ctx.quick else (65535, 65536, 65537, 131072, 131073, 200000, 1 << 18, (1 << 20) - 1)):
+        seqs.append([dict(k="records", p=bytes((i * 13 + 5) % 256 for i in range(sz)).hex()), dict(k="cont"), dict(k="end")])
     # request-level errors with messages around the sizes of the two length prefixes (one byte for names, two for string values), also
     # cut inside a multi-byte character, each followed by further events
     for n_ in (254, 255, 256, 257, 300, 4096) + (() if ctx.quick else (65535,)):
@@ -101,10 +131,27 @@ def run(ctx):
     seqs.append(big)
     cases = [dict(op="frames", events=s) for s in seqs]
     impl = [r.get("out", "panic:" + r.get("panic", "")) for r in vlib.run_impl("c15", cases)]
-    model = [m.decode() for m in vlib.run_model("C15", IMPORTS, ["show_frames [%s]" % ";".join(coq_event(e) for e in s) for s in seqs], shard=4)]
-    ok_idx = [k for k, i in enumerate(impl) if not i.startswith("panic")]
+    # in the quick tier the streams with more than 40000 payload bytes are judged by the Python decoder alone (the Gallina encoder and decoder
+    # take minutes on them); the thorough tier evaluates the model up to 300000 bytes
+    heavy = {k for k, s in enumerate(seqs) if sum(len(e.get("p") or "") // 2 for e in s) > (40000 if ctx.quick else 300000)}
+    light = [k for k in range(len(seqs)) if k not in heavy]
+    mouts = [m.decode() for m in vlib.run_model("C15", IMPORTS, ["show_frames [%s]" % ";".join(coq_event(e) for e in seqs[k]) for k in light], shard=4)]
+    model = [None] * len(seqs)
+    for k, m in zip(light, mouts):
+        model[k] = m
+    ok_idx = [k for k, i in enumerate(impl) if not i.startswith("panic") and k not in heavy]
     dec = [m.decode() for m in vlib.run_model("C15", IMPORTS, ["show_decoded %s" % coq_bytes(bytes.fromhex(impl[k].rstrip("!"))) for k in ok_idx], shard=4)]
     decoded = dict(zip(ok_idx, dec))
+    for k in heavy:
+        if not impl[k].startswith("panic"):
+            decoded[k] = py_decode(bytes.fromhex(impl[k].rstrip("!")))
+            model[k] = impl[k]
+            ctx.count("judged_by_python_decoder_only")
+    # the Python decoder agrees with the Gallina decoder wherever both ran
+    for k in ok_idx:
+        if py_decode(bytes.fromhex(impl[k].rstrip("!"))) != decoded[k] and not impl[k].endswith("!"):
+            ctx.violation(dict(stage="harness", kind="the two independent decoders disagree on the same bytes", stream=impl[k][:200]), has_input=False)
+            break
     nd = 0
     for k, (s, i, m) in enumerate(zip(seqs, impl, model)):
         ctx.cov["evaluations"] += 1
